@@ -218,7 +218,7 @@ def run(ctx):
             fa, fr = fields(a), fields(r)
             if cls_of(a) != cls_of(r) or fa.get("sig") != fr.get("sig") or fa.get("cb") != fr.get("cb") or fa.get("vk") != fr.get("vk"):
                 ctx.fail("a buffer left behind by an earlier signing call changes the result (%s)" % c.cls, [c.line[:400]], a[:120], r[:120])
-    tall = [Case(keygen_line("S32", [(2, 7)], bytes(range(32)), bytes(70000)), "keygen/h15-long-buffer"), Case(keygen_line("S32", [(2, 7)], bytes(range(32))), "keygen/h15-ref")]
+    tall = [Case(keygen_line("S32", [(2, 7)], bytes(range(32)), bytes(1500000)), "keygen/h15-long-buffer"), Case(keygen_line("S32", [(2, 7)], bytes(range(32))), "keygen/h15-ref")]
     ta = [canon_(x) for x in ctx.hz.batch([c.line for c in tall])]
     ctx.evaluations += 2
     ctx.classes[("keygen/h15-long-buffer", cls_of(ta[0]))] = 1
